@@ -35,3 +35,10 @@ ENTRY = {
         "panic-freedom is not proved; it is explored on the enumerated mutations only",
     ],
 }
+
+# "equal values yield equal consensus hashes on every node" on the receive path of consensus messages
+# (core/consensus/qbft/msg.go valuesByHash / newMsg, an anchor of C14): the admission stream of C05 sends multi-entry
+# sets whose map entries travel in non-canonical order; the value must be filed under the hash the honest leader announced
+from vlib.props_C05 import ENTRY as _E05
+ENTRY["streams"] = ENTRY["streams"] + [dict(_E05["streams"][0], seeds_quick=1)]
+ENTRY["monitor_sigs"] = list(ENTRY.get("monitor_sigs") or ["codec:"]) + ["qbftwire:honest_message_rejected", "qbftwire:value_hash_mismatch_accepted"]
